@@ -268,7 +268,7 @@ static void signal_observer(struct cmb_resourceguard *obs)
     struct cmi_hashheap *hp = (struct cmi_hashheap *)obs;
     if (!cmi_hashheap_is_empty(hp)) {
         uint64_t cnt = 0u;
-        uint64_t *tmp = cmi_malloc(hp->heap_count * sizeof(*tmp));
+        struct cmi_heap_tag *tmp = cmi_malloc(hp->heap_count * sizeof(*tmp));
         const struct cmi_resourcebase *rbp = obs->guarded_resource;
         for (uint64_t ui = 1u; ui <= hp->heap_count; ui++) {
             const struct cmi_heap_tag *htp = &(hp->heap[ui]);
@@ -276,15 +276,22 @@ static void signal_observer(struct cmb_resourceguard *obs)
             cmb_resourceguard_demand_func *demand = htp->item[1];
             const void *ctx = htp->item[2];
             if ((*demand)(rbp, pp, ctx)) {
-                tmp[cnt++] = htp->key;
-                (void)cmb_event_schedule(wakeup_event_resource, pp,
-                                         (void *)CMB_PROCESS_SUCCESS,
-                                         cmb_time(), cmb_process_priority(pp));
+                /* Keep the list in waiting list order, not heap array order */
+                uint64_t uj = cnt++;
+                while ((uj > 0u) && (*hp->heap_compare)(htp, &(tmp[uj - 1u]))) {
+                    tmp[uj] = tmp[uj - 1u];
+                    uj--;
+                }
+                tmp[uj] = *htp;
             }
         }
 
         for (uint64_t ui = 0u; ui < cnt; ui++) {
-            (void)cmi_hashheap_remove(hp, tmp[ui]);
+            struct cmb_process *pp = tmp[ui].item[0];
+            (void)cmb_event_schedule(wakeup_event_resource, pp,
+                                     (void *)CMB_PROCESS_SUCCESS,
+                                     cmb_time(), cmb_process_priority(pp));
+            (void)cmi_hashheap_remove(hp, tmp[ui].key);
         }
 
         cmi_free(tmp);
